@@ -39,7 +39,7 @@ fn sym_key<const N: usize>(buf: &mut [u8; N]) -> usize {
 /// Hash-trace equality: `hash_str_as_yaml_string(k, h)` writes to `h` exactly what hashing the
 /// stored key `Yaml::Value(Scalar::String(k))` writes, borrowed or owned.
 #[kani::proof]
-#[kani::unwind(50)]
+#[kani::unwind(12)]
 #[kani::stub(<f64 as std::str::FromStr>::from_str, f64_from_str_stub)]
 pub fn c20_hash_trace_yaml() {
     let mut buf = [0u8; 4];
